@@ -153,6 +153,7 @@ static int wake_addr(const void*a,int max){ int n=0; for(int t=0;t<nth&&n<max;t+
 extern "C" void vf_block_on(void*a){ if(!active||me<0) return; vf_tso_drain(); fp_event(a,0); block_on(a,"block"); vf_hb_acquire(a); }
 extern "C" void vf_wake(void*a){ if(!active||me<0) return; vf_tso_drain(); vf_hb_release(a); fp_event(a,1); wake_addr(a,MAXT); }
 extern "C" void vf_gate_wait(){ if(!active||me<0) return; vf_tso_drain(); th[me].st=ST_GATE; schedule(2,"gate",0); vf_hb_acquire(&stamp_addr); }
+extern "C" int vf_others_idle(){ for(int t=0;t<nth;t++) if(t!=me && th[t].st==ST_RUN) return 0; return 1; }
 extern "C" int vf_gate_count(){ int n=0; for(int t=0;t<nth;t++) if(th[t].st==ST_GATE) n++; return n; }
 extern "C" void vf_gate_open(){ vf_hb_release(&stamp_addr); for(int t=0;t<nth;t++) if(th[t].st==ST_GATE) th[t].st=ST_RUN; }
 extern "C" void vf_window(int on){ window=on; }
